@@ -125,6 +125,17 @@ def shapeOf (k : DirKeys) (off0 : Nat) (wire : Bytes) : String := Id.run do
     off := off + pktHdrLength + total
   return if out.isEmpty then "-" else ",".intercalate out.reverse
 
+/-- a reader that stops at the first error or when it would block, with the state it ends in -/
+def readUntil (rd : ConnRd → List NetRead → ReadOut) : Nat → ConnRd → List NetRead → ConnRd × Bytes × Option RdErr
+  | 0, s, _ => (s, [], none)
+  | fuel + 1, s, script =>
+    match rd s script with
+    | none => (s, [], none)
+    | some (s', d, some e, _) => (s', d, some e)
+    | some (s', d, none, rest) =>
+      let (s'', d', e) := readUntil rd fuel s' rest
+      (s'', d ++ d', e)
+
 def step (st : St) : List String → St × String
   | ["pw", s] =>
     match Base32.decode (if s == "-" then "" else s) with
@@ -256,6 +267,22 @@ def step (st : St) : List String → St × String
           | some (.net c) => s!"net:{c}"
         (st, s!"ok {hex d} {es}")
     | _, _, _, _ => (st, "bad-op")
+  | ["cli.recover", fx, seed, bufsize, errc, first, second] =>
+    -- `first` arrives together with the error of class errc (or the error alone if `first` is "-");
+    -- the reader reads until the error; then `second` arrives without error and it reads until it blocks
+    match fixed? fx, unhex? seed, bufsize.toNat?, errc.toNat?, unhex? first, unhex? second with
+    | some fx, some seed, some n, some ec, some c1, some c2 =>
+      if n = 0 then (st, "bad-op") else
+      let k := (initCrypto realPrims seed).2
+      let rd := if fx then ConnRd.read realPrims k n else ConnRd.readOld realPrims k n
+      let (s1, d1, e1) := readUntil rd (c1.length + 6) ⟨Rx.init 0, [], [], none⟩ [(c1, some ec)]
+      let (_, d2, e2) := readUntil rd (c2.length + 6) s1 [(c2, none)]
+      let es (e : Option RdErr) : String := match e with
+        | none => "none"
+        | some .invalidPacket => "invalid"
+        | some (.net c) => s!"net:{c}"
+      (st, s!"ok {hex d1} {es e1} {hex d2} {es e2}")
+    | _, _, _, _, _, _ => (st, "bad-op")
   | ["padburst", bl, sample] =>
     match bl.toNat?, sample.toNat? with
     | some bl, some s =>
